@@ -1066,6 +1066,15 @@ def history_case(rng, tier):
     return {"history": steps, "case": case, "seed": rng.getrandbits(32)}
 
 
+def _no_addr(o):
+    """outcomes of two processes are compared: object addresses in error messages are not part of them"""
+    if isinstance(o, str):
+        return re.sub(r"0x[0-9a-fA-F]+", "0x", o)
+    if isinstance(o, (list, tuple)):
+        return [_no_addr(x) for x in o]
+    return o
+
+
 def history_oracle(h):
     """the simulator under test after the history must behave exactly as in a fresh session"""
     case, sim = h["case"], h["case"]["sim"]
@@ -1076,8 +1085,8 @@ def history_oracle(h):
     if "error" in hist:
         return ("history worker failed: %s" % hist["error"], "history-worker-failed")
     a, b = ref["scripted"], hist["scripted"]
-    ta = strip_taxa(a["out"][1]) if (sim == "cc" and a["out"][0] == "tree") else a["out"]
-    tb = strip_taxa(b["out"][1]) if (sim == "cc" and b["out"][0] == "tree") else b["out"]
+    ta = strip_taxa(a["out"][1]) if (sim == "cc" and a["out"][0] == "tree") else _no_addr(a["out"])
+    tb = strip_taxa(b["out"][1]) if (sim == "cc" and b["out"][0] == "tree") else _no_addr(b["out"])
     if b["touched"] or hist["seeded"]["touched"]:
         return ("%s used the global generator after the history: %s" % (sim, (b["touched"] + hist["seeded"]["touched"])[:2]),
                 "global-rng-touched:" + sim)
@@ -1088,7 +1097,7 @@ def history_oracle(h):
         return ("%s depends on what was computed earlier in the session (scripted generator, same draws): %s; history: %s"
                 % (sim, what, json.dumps(h["history"])[:300]), "history-dependent:" + sim)
     x, y = ref["seeded"], hist["seeded"]
-    same = (x["out"] == y["out"]) and (x["newick"] == y["newick"] if sim != "cc" else
+    same = (_no_addr(x["out"]) == _no_addr(y["out"])) and (x["newick"] == y["newick"] if sim != "cc" else
                                        (x["newick"] is None) == (y["newick"] is None))
     if sim == "cc" and x["newick"] is not None and y["newick"] is not None:
         same = same and re.sub(r"[A-Za-z_][A-Za-z_0-9]*", "g", x["newick"]) == re.sub(r"[A-Za-z_][A-Za-z_0-9]*", "g", y["newick"])
